@@ -141,6 +141,13 @@ Inductive event :=
 | Close (n c : N)          (* CloseConnection — whenever node n notices (also the LATE cleanup of an old connection) *)
 | Tick (d : N).            (* d ms pass *)
 
+(* handleHandshake: isControlConnection := req.ConnectionType != "tunnel" (an omitted / empty / otherwise spelled
+   connection_type, and a handshake packet without payload, are control handshakes).  Request shapes as numbered by the
+   harness: shape mod 4 = 0 "control" | 1 omitted | 2 "tunnel" | 3 other spelling; +4 version omitted; +8 protocol
+   omitted; +16 empty payload.  A handshake the server does not take for a control handshake registers nothing in the
+   store and is the event AuthFail as far as the lookup is concerned (Proofs/SideC08.v ties this to the code). *)
+Definition shape_is_control (k : N) : bool := (16 <=? k) || negb (k mod 4 =? 2).
+
 Definition opt_is (o : option N) (c : N) : bool := match o with Some c' => c' =? c | None => false end.
 
 (* ClientRegistry.removeConnectionLocked / KickOldConnection: drop conn o and its index entry if it names o *)
